@@ -6,7 +6,7 @@ import ast
 import re
 
 from .. import sqlt
-from ..execmodel import ExecHooks, R, make_session, sget, sset, sowner, sowners
+from ..execmodel import ExecHooks, R, cset, make_session, sget, sset, sowner, sowners
 from ..interp import explore
 from ..model import norm
 from ..values import Const, Obj, Str, Sym, tagof
@@ -213,7 +213,7 @@ def rule_pure(ctx):
 
         def run_d(I, how=how, PARAMS=PARAMS):
             duck, conn, cur = make_session()
-            conn.attrs[R().paramstyle] = Const("qmark")
+            cset(conn, R().paramstyle, Const("qmark"))
             cmd = Sym("COMMAND", typ="str", truthy=True)
             if how == "positional":
                 return I.call(I.getattr(cur, "describe"), [cmd, PARAMS], {}, None)
